@@ -1,5 +1,5 @@
 (* C11 model runner.  One case per line:
-   <id> <cfg6bits> <preserve01> <wd> <cwd> <nprep> {d <path> | f <path> <tag> | l <path> <target> | h <path> <earlier file>}* <npush>
+   <id> <cfg6bits> <preserve01> <wd as opened> <physical wd> <cwd> <nprep> {d <path> | f <path> <tag> | l <path> <target> | h <path> <earlier file>}* <npush>
         { B <title> <tag> | M <nlayers> {<title> <tag>}* | (U | F <how>) <title> <nent> { (r <name> <tag> <mode> | d <name> <mode> | h <name> <tgt> | s <name> <tgt> | o <name>) <time> }* }*
    strings are hex ("-" = empty); paths are absolute slash-separated strings; modes decimal.
    Pre-populated directories have mode 0755, files 0644.
@@ -21,6 +21,7 @@ let run_case id toks =
   let g = { fixH = bit 0; fixA = bit 1; fixR = bit 2; fixN = bit 3; fixW = bit 4; fixT = bit 5 } in
   let pres = (next () = "1") in
   let wd = path_of_string (string_of_hex (next ())) in
+  let physwd = path_of_string (string_of_hex (next ())) in
   let cwd = path_of_string (string_of_hex (next ())) in
   let nprep = int_of_string (next ()) in
   let ents = ref [] and cont = ref [] and ino = ref 0 in
@@ -79,7 +80,7 @@ let run_case id toks =
     | k -> failwith ("push kind " ^ k)
   done;
   let listing (f : fsys) : string =
-    let stamp p k = if inside wd p || k = 0 then "" else "@" ^ string_of_int k in
+    let stamp p k = if inside physwd p || k = 0 then "" else "@" ^ string_of_int k in
     let lines = List.map (fun (p, nd) ->
         let hp = hex_of_path p in
         match nd with
